@@ -16,6 +16,7 @@ mod git_commit_parser;
 mod pos_conv;
 // --- harness ---
 mod common;
+mod prules;
 mod leaves;
 mod c02typst;
 mod rules;
@@ -125,6 +126,7 @@ fn main() {
         "C10-child" => c10::run(&ctx),
         "C12" => c12::run(&ctx),
         "LEAVES" => leaves::run(&ctx),
+        "PRULES" => prules::run(&ctx),
         _ => {
             eprintln!("unknown property {}", prop);
             std::process::exit(2);
